@@ -55,7 +55,7 @@ async def _quiet(coro_or_fn, *a, **kw):
 
 @scenario
 async def explicit_parent_and_late_entry():
-    from asphalt.core import Context
+    from asphalt.core import Context, add_resource, get_resource, get_resources
     async with Context() as root:
         root.add_resource(A(), "early")
         child = Context(root)            # created now, entered later
@@ -68,6 +68,7 @@ async def explicit_parent_and_late_entry():
             child.get_resources(A)
             async with Context(root) as sibling:     # explicit parent that is not the current context
                 sibling.add_resource(B(), "sib")
+                add_resource(C(), "via_shortcut_in_sibling")
                 child.get_resources(B)
                 root.get_resources(B)
                 await _quiet(root.get_resource, B, "sib", optional=True)
@@ -76,6 +77,9 @@ async def explicit_parent_and_late_entry():
                 async with grand:
                     grand.get_resources(C)
                     await _quiet(grand.get_resource_nowait, C, "after_grand")
+            add_resource(A(), "via_shortcut_after_sibling")      # the shortcuts act on `child` again
+            get_resources(A)
+            await _quiet(get_resource, B, "sib", optional=True)
 
 
 @scenario
@@ -176,6 +180,7 @@ async def operations_during_teardown():
     async def late():
         ctx = holder["ctx"]
         await _quiet(ctx.add_resource, A(), "during")
+        await _quiet(ctx.add_resource, A(), "during_cb", teardown_callback=lambda: None)     # allowed while closing, callback included
         await _quiet(ctx.add_resource_factory, lambda: C(), "during", types=[C])
         await _quiet(ctx.get_resource, C, "fac")                # generation while closing
         await _quiet(ctx.get_resource_nowait, A, "during")
